@@ -23,7 +23,7 @@ RULE = ("hypothesis-generated values (derandomised from the seed) from the lossl
         "x level; non-trivial = not a bare scalar None/bool")
 ASSUMPTIONS = ["ints bounded by CPython's int<->str digit limit", "datetimes: naive, whole milliseconds, TZ=UTC",
                "values a serializer refuses are only required to be refused on every path alike"]
-REQUIRED_REACH = ["shards_with_one_sided_replacements", "huge_int_cases", "concurrent_wire_calls", "shards_with_serpent_bytes_repr", "codec_core_ok", "codec_ext_ok", "wire_ok", "wire_batch_ok", "wire_stream_ok", "wire_compressed_request", "wire_compressed_reply", "wire_with_annotations", "codec_memoryview_same"]
+REQUIRED_REACH = ["decimal_uuid_text_checked", "shards_with_one_sided_replacements", "huge_int_cases", "concurrent_wire_calls", "shards_with_serpent_bytes_repr", "codec_core_ok", "codec_ext_ok", "wire_ok", "wire_batch_ok", "wire_stream_ok", "wire_compressed_request", "wire_compressed_reply", "wire_with_annotations", "codec_memoryview_same"]
 SHARD_TIMEOUT = {"quick": 220, "thorough": 2400}
 RAISED = object()
 
@@ -51,6 +51,15 @@ def plan(tier, seed):
 
 
 ONE_SIDED = [False]
+
+
+def one_sided_image(v):
+    """what the one-sided replacement shard registers: Decimal -> its negation (json only), UUID -> its bit-complement (msgpack only)"""
+    import decimal
+    import uuid
+    if type(v) is decimal.Decimal:
+        return v.copy_negate()
+    return uuid.UUID(int=v.int ^ ((1 << 128) - 1))
 
 
 def outcome(fn):
@@ -150,10 +159,22 @@ def check_codec(sers, name, x, is_core, rec):
         import uuid as _uuid
         want_text = str(x)
         if ONE_SIDED[0] and ((name == "json" and type(x) is _dec.Decimal) or (name == "msgpack" and type(x) is _uuid.UUID)):
-            want_text = ("json-only:" if name == "json" else "msgpack-only:") + str(x)       # (what the application asked THIS serializer to do)
+            want_text = str(one_sided_image(x))       # (what the application asked THIS serializer to do)
         if type(x) in (_dec.Decimal, _uuid.UUID) and (type(R) is not str or R != want_text):
-            rec.violation("documented-mapping-broken:%s" % name, "%s: %s %s arrives as %s, expected its text %r" % (name, type(x).__name__, x, show(R), str(x)), pay)
+            rec.violation("documented-mapping-broken:%s" % name, "%s: %s %s arrives as %s, expected its text %r" % (name, type(x).__name__, x, show(R), want_text), pay)
             return
+        if type(x) in (_dec.Decimal, _uuid.UUID):
+            rec.count("decimal_uuid_text_checked")
+        # ... and the same one level down (the replacement machinery sees nested values through another door)
+        if type(x) is list and len(x) == 1 and type(x[0]) in (_dec.Decimal, _uuid.UUID):
+            inner = x[0]
+            want_inner = str(inner)
+            if ONE_SIDED[0] and ((name == "json" and type(inner) is _dec.Decimal) or (name == "msgpack" and type(inner) is _uuid.UUID)):
+                want_inner = str(one_sided_image(inner))
+            if R != [want_inner]:
+                rec.violation("documented-mapping-broken:%s" % name, "%s: [%s %s] arrives as %s, expected [%r]" % (name, type(inner).__name__, inner, show(R), want_inner), pay)
+                return
+            rec.count("decimal_uuid_text_checked")
     if name == "serpent" and type(x) is bytes:
         import base64
         import Pyro5
@@ -476,8 +497,9 @@ def run_shard(shard, rec):
     if shard.get("one_sided_replacements"):
         import decimal as _dec
         import uuid as _uuid
-        P.serializers.JsonSerializer.register_type_replacement(_dec.Decimal, lambda d: "json-only:" + str(d))
-        P.serializers.MsgpackSerializer.register_type_replacement(_uuid.UUID, lambda u: "msgpack-only:" + str(u))
+        # (a replacement function has to return something the serializer's default() hook knows: same-type images)
+        P.serializers.JsonSerializer.register_type_replacement(_dec.Decimal, one_sided_image)
+        P.serializers.MsgpackSerializer.register_type_replacement(_uuid.UUID, one_sided_image)
         ONE_SIDED[0] = True
         rec.count("shards_with_one_sided_replacements")
     if shard["kind"] == "codec":
@@ -506,6 +528,12 @@ def run_shard(shard, rec):
         for v in [2 ** 63, -2 ** 63 - 1, 2 ** 64, -2 ** 64, 2 ** 2047, -(2 ** 2047), [2 ** 70], {"k": -2 ** 99}, float("nan"), [float("nan")], (float("nan"),),
                   {"a": (float("nan"), 1)}, [(float("inf"), [float("-inf")])], -0.0, [-0.0], "\x00", "a\x00b", "퟿", "", "", [[]], [{}], {"": ""}]:
             (core_case if not has_tuple(v) else ext_case)(v)
+        import decimal as _dec2
+        import uuid as _uuid2
+        for v in [_dec2.Decimal("1.5"), _dec2.Decimal("12"), _dec2.Decimal("-0.000"), _dec2.Decimal("1E+30"), _dec2.Decimal("NaN"), _dec2.Decimal("-Infinity"),
+                  _uuid2.UUID(int=0), _uuid2.UUID(int=r.getrandbits(128)), _uuid2.UUID("12345678-1234-5678-1234-567812345678")]:
+            ext_case(v)
+            ext_case([v])
         # Pyro's own value type (every serializer carries it as a class dict): same mapping on every path, at every nesting position
         U = P.core.URI
         for text in ("PYRO:obj@host:1", "PYRO:o.b-j@[::1]:65535", "PYRONAME:some.name", "PYRONAME:n@ns:9090", "PYRO:x@./u:/tmp/sock", "PYROMETA:a,b"):
